@@ -74,6 +74,8 @@ type Contract struct {
 	Hints       []*Clause
 	Reveal      []string
 	Guards      []*Clause
+	Checks      []*Clause
+	Lenient     bool
 }
 
 type ContractSet struct {
@@ -88,7 +90,7 @@ var directiveRe = regexp.MustCompile(`^([a-z-]+)(\[[A-Za-z0-9_.:-]+\])?(\s+|$)`)
 var knownDirectives = map[string]bool{"func": true, "extern": true, "property": true, "requires": true, "ensures": true,
 	"modifies": true, "loop": true, "spec": true, "nooverflow": true, "nopanic": true, "inline": true, "assume": true, "pure": true,
 	"noreturn": true, "nilrecv": true, "lemma": true, "var": true, "assumes": true, "shows": true, "uses": true, "iface": true,
-	"bounded": true, "note": true, "ghost": true, "hint": true, "package": true, "opaque": true, "reveal": true, "guard": true}
+	"bounded": true, "note": true, "ghost": true, "hint": true, "package": true, "opaque": true, "reveal": true, "guard": true, "check": true, "lenient": true}
 
 // loadContracts parses every zz_verif_contracts.go below root/src.
 func loadContracts(root string) (*ContractSet, error) {
@@ -291,10 +293,21 @@ func (cs *ContractSet) parseFile(path, pkg string) error {
 			cur.NoReturn = true
 		case "nilrecv":
 			cur.NilRecvOK = true
+		case "lenient":
+			cur.Lenient = true
 		case "bounded":
 			cur.Bounded = d.text
 		case "ghost":
 			cur.Ghost = append(cur.Ghost, strings.Fields(d.text)...)
+		case "check":
+			// check[name] expr: like ensures, but evaluated only at the function's own returns
+			// and allowed to name locals (a local that does not exist at a return stands for an
+			// arbitrary value there); not visible to callers
+			n, err := parseSpec(d.text)
+			if err != nil {
+				return perr(d, err)
+			}
+			cur.Checks = append(cur.Checks, &Clause{Name: d.name, Expr: n, Src: d.text})
 		case "guard":
 			// guard[callee] expr: an obligation at every call of `callee` inside this function
 			// (guard dominance: the call happens only where expr holds); expr may name locals
